@@ -3,6 +3,7 @@
   What is *not* proved here is said at the end of the file.
 -/
 import PercevalModel.Model.C02
+import PercevalModel.Lemmas.C02
 
 open Matrix
 
@@ -88,6 +89,26 @@ theorem pamp_single [CommRing R] {m : ℕ} (U : Matrix (Fin m) (Fin m) R) (s t :
   rw [Matrix.permanent_eq_elem_of_card_eq_one hc ⟨0, by omega⟩]
   rfl
 
+/-- the specification amplitude, evaluated by Laplace expansion over lists -/
+theorem pamp_eq_permRec [CommRing R] {m : ℕ} (U : Matrix (Fin m) (Fin m) R) (s t : List ℕ)
+    (h : s.sum = t.sum) : pamp U s t = permRec (entry U) (expand t) (expand s) := by
+  rw [permRec_eq_permanent _ _ _ (by rw [expand_length, expand_length, h])]
+  unfold pamp
+  rw [if_pos h, ← permanent_submatrix_equiv_self (finCongr (expand_length s).symm)]
+  rfl
+
+/-- **SLOS = boson-sampling amplitude**, for every photon number, every (bunched) input and
+output: the layered polynomial-coefficient recursion `coef(t + e_j) += coef(t)·U[j, c_k]`, rescaled
+by `∏ t!`, is `perm(U[t|s])`. -/
+theorem slosPamp_eq_pamp [CommRing R] {m : ℕ} (U : Matrix (Fin m) (Fin m) R) (s t : List ℕ)
+    (ht : t.length = m) : slosPamp U s t = pamp U s t := by
+  unfold slosPamp
+  by_cases h : s.sum = t.sum
+  · rw [if_pos h, pamp_eq_permRec U s t h,
+      ← slosCoef_eq_permRec U (expand s) t ht (by rw [expand_length, h])]
+    ring
+  · rw [if_neg h, pamp_zero_of_sum_ne U s t h]
+
 /-! non-vacuity / regression: a non-symmetric 2-mode matrix, bunched output -/
 def exU : Matrix (Fin 2) (Fin 2) GQ := fun i j => if i = j then ⟨3/5, 0⟩ else ⟨0, 4/5⟩
 
@@ -98,8 +119,6 @@ example : bulkStates 3 [1, 1, 0] [[some 1, none, none]] = [[1, 1, 0], [1, 0, 1]]
 
 /-!
 Not proved (stated here so the gap is visible; validated by the correspondence only):
-* `slosPamp U s t = pamp U s t` for all `n` (the polynomial-coefficient recursion equals the
-  permanent up to `∏t!`);
 * `fock_comp`: amplitudes of `V * U` are the Fock-space composition of those of `V` and `U`
   (what makes the step-by-step simulator and MPS sound), hence `∑_t prob U s t = 1` for unitary `U`;
 * `pamp (permMat σ) s t = if t = permApply σ 0 s then ∏ sᵢ! else 0` for `n > 1`.
